@@ -110,5 +110,19 @@ func Corpus(res *vh.Result, prop string) []*Hist {
 		g.voteAndCount(1, 1, w.H+1, 1, kAccept, 0, nil, false)
 		out = append(out, h)
 	}
+	// C05 (seeded change C05-B): a held INIT(H,1) record, the box moves to the majority of ACCEPT(H,0), the hold
+	// expires: nothing may be emitted from the records of the passed stage point
+	{
+		h, g := corpusHist(res, prop, 3, 670)
+		g.holdScenario(true)
+		out = append(out, h)
+	}
+	// C04 (seeded change C04-A): a rejected second ballot of a node carries an expired expel; it must leave no trace
+	// in the record: no expel voteproof may be built from it
+	for _, fl := range []int{0, 1} {
+		h, g := corpusHist(res, prop, 4, 670)
+		g.revoteScenario(fl)
+		out = append(out, h)
+	}
 	return out
 }
